@@ -1,7 +1,7 @@
 (** Evaluation of the C16 models on the cases written by the harness (correspondence check).
     [*_mis_y]: ids of the cases where the implementation's observed answer differs from Y;
     [*_mis_g]: ids of the cases where the reference's answer (GOPATH-mode [go run]) differs from G. *)
-From Verif Require Import Lib.Str Imports.Model.
+From Verif Require Import Lib.Str Imports.Model Imports.Load.
 
 (** a path written as a string with "/" separators *)
 Definition pstr (x : str) : path := filter nonempty (split slash x).
@@ -93,11 +93,15 @@ Definition init (d : string) : event := EvInit (pth d).
 Definition edge (d i r : string) : event := EvEdge (pth d) (pth i) (pth r).
 Definition main (d : string) : event := EvMain (pth d).
 
-(** (id, file mode?, context, entry import path, implementation outcome, reference outcome) *)
-Definition run_case := (N * bool * ctx * path * outcome * outcome)%type.
+(** (id, inside the side conditions according to the generator?, file mode?, context, entry import
+    path, implementation outcome, reference outcome) *)
+Definition run_case := (N * bool * bool * ctx * path * outcome * outcome)%type.
 Definition run_mis_y (cs : list run_case) : list N :=
-  flat_map (fun x : run_case => let '(id, file, c, e, impl, _) := x in
+  flat_map (fun x : run_case => let '(id, _, file, c, e, impl, _) := x in
     if outcome_eqb_y (if file then y_run_file c else y_run_path c e) impl then [] else [id]) cs.
+(** the reference against G; and the generator's labelling against the side condition of
+    C16_load_partial (programs entered by an import path) *)
 Definition run_mis_g (cs : list run_case) : list N :=
-  flat_map (fun x : run_case => let '(id, file, c, e, _, ref) := x in
-    if outcome_eqb_g (if file then g_run_file c else g_run_path c e) ref then [] else [id]) cs.
+  flat_map (fun x : run_case => let '(id, inside, file, c, e, _, ref) := x in
+    if outcome_eqb_g (if file then g_run_file c else g_run_path c e) ref
+       && (file || Bool.eqb inside (good_prog c e)) then [] else [id]) cs.
